@@ -105,3 +105,49 @@ func VerifH_prf_validate() {
 	verifrt.Assert((ValidateAESCMACPRFParams(ks) == nil) == (ks == 32), "AES-CMAC-PRF keys of 32 bytes")
 	verifrt.Reach("end")
 }
+
+// The value of a PRF call is a function of (key, input, length) alone: an arbitrary earlier
+// call on the same object -- any input, any length including rejected ones -- does not
+// change it. (Each object is a shared, reusable primitive.)
+func VerifH_prf_history() {
+	key := verifrt.Bytes("key", 32)
+	y := verifrt.Bytes("y", verifrt.Choice("yl", 3))
+	x := verifrt.Bytes("x", verifrt.Choice("xl", 3))
+	switch verifrt.Choice("prf", 3) {
+	case 0:
+		name, hf, size := pickHash("hash", 2)
+		p, err := NewHMACPRF(name, key)
+		verifrt.Assert(err == nil, "NewHMACPRF")
+		n0 := [...]int{0, 1, size, size + 1, 1 << 20}[verifrt.Choice("n0", 5)]
+		_, err0 := p.ComputePRF(y, uint32(n0))
+		verifrt.Assert((err0 == nil) == (n0 <= size), "earlier call: limit")
+		n := [...]int{1, size}[verifrt.Choice("n", 2)]
+		out, err := p.ComputePRF(x, uint32(n))
+		verifrt.Assert(err == nil, "later call succeeds")
+		m := stdhmac.New(hf, key)
+		m.Write(x)
+		verifrt.AssertEq(out, m.Sum(nil)[:n], "HMAC-PRF value independent of the earlier call")
+	case 1:
+		p, err := NewAESCMACPRF(key)
+		verifrt.Assert(err == nil, "NewAESCMACPRF")
+		n0 := [...]int{0, 1, 16, 17, 1 << 20}[verifrt.Choice("n0", 5)]
+		_, err0 := p.ComputePRF(y, uint32(n0))
+		verifrt.Assert((err0 == nil) == (n0 <= 16), "earlier call: limit")
+		out, err := p.ComputePRF(x, 16)
+		verifrt.Assert(err == nil, "later call succeeds")
+		verifrt.AssertEq(out, verifspec.CMAC(key, x), "AES-CMAC-PRF value independent of the earlier call")
+	default:
+		name, hf, size := pickHash("hash", 2)
+		salt := verifrt.Bytes("salt", verifrt.Choice("sl", 2))
+		p, err := NewHKDFPRF(name, key, salt)
+		verifrt.Assert(err == nil, "NewHKDFPRF")
+		n0 := [...]int{0, 1, size + 1, 255*size + 1}[verifrt.Choice("n0", 4)]
+		_, err0 := p.ComputePRF(y, uint32(n0))
+		verifrt.Assert((err0 == nil) == (n0 <= 255*size), "earlier call: limit")
+		n := size + 1
+		out, err := p.ComputePRF(x, uint32(n))
+		verifrt.Assert(err == nil, "later call succeeds")
+		verifrt.AssertEq(out, verifspec.HKDF(hf, key, salt, x, n), "HKDF-PRF value independent of the earlier call")
+	}
+	verifrt.Reach("end")
+}
